@@ -10,6 +10,8 @@ os.environ.setdefault('PYTHONHASHSEED', '0')
 
 
 def main():
+    import logging
+    logging.disable(logging.CRITICAL)
     ap = argparse.ArgumentParser()
     ap.add_argument('prop')
     ap.add_argument('--tier', default=os.environ.get('VERIF_TIER', 'quick'))
